@@ -54,7 +54,13 @@ func zzB06Elems(flavour, n, pos, poison int, hashable bool) []Value {
 		case 1:
 			elems[i] = String(zzB06Strs[i])
 		case 2:
-			elems[i] = Tuple{zzMInt(ev[i]), zzMInt(vv[i])}
+			if hashable {
+				// K hashes these tuples: keep them concrete (Tuple.Hash of symbolic
+				// elements is a chain of 32-bit multiplications the solver cannot invert)
+				elems[i] = Tuple{MakeInt(10 + i), MakeInt(20 + i)}
+			} else {
+				elems[i] = Tuple{zzMInt(ev[i]), zzMInt(vv[i])}
+			}
 		}
 		if i == pos {
 			switch {
